@@ -687,3 +687,18 @@ Proof.
     change "x.y" with ("x" ++ ("." ++ ("y" ++ EmptyString))). repeat (constructor; [apply rune_ascii; reflexivity|]). constructor.
   - split; [repeat constructor; discriminate|]. repeat split; reflexivity.
 Qed.
+
+(* non-vacuity of the --set-file / --set-json statements: a callback backed by a table with a
+   multi-line content, a decoder backed by a table (what encoding/json reads from the text) *)
+Definition ex_rdr : string -> val * bool := rdr_of_table [("/tmp/f", (VStr (bs [108; 49; 10; 108; 50; 10]), true))].
+Definition ex_js : string := "{""x"":[1,null]}".
+Definition ex_jdec : string -> option (val * nat) := jdec_of_table [(14, (VMap [("x", VList [VNum 1; VNull])], 14))].
+
+Example file_json_nonvacuous :
+  ex_rdr "/tmp/f" = (VStr (bs [108; 49; 10; 108; 50; 10]), true)
+  /\ parse_into_file2 ex_rdr (show_path2 esc_key "a" [PI "1" 1%Z; PI "0" 0%Z] (esc_val "/tmp/f")) []
+     = POk [("a", VList [VNull; VList [VStr (bs [108; 49; 10; 108; 50; 10])]])]
+  /\ empty_val2 ex_js = (false, ex_js) /\ ex_jdec ex_js = Some (VMap [("x", VList [VNum 1; VNull])], String.length ex_js)
+  /\ parse_json2 ex_jdec (show_path2 esc_key "a" [PI "0" 0%Z; PK "b"] ex_js) [("a", VList [VMap [("k", VNum 1)]])]
+     = POk [("a", VList [VMap [("k", VNum 1); ("b", VMap [("x", VList [VNum 1; VNull])])]])].
+Proof. repeat split; reflexivity. Qed.
